@@ -54,7 +54,9 @@ def history(rng, exe, length, box, f0=1e9):
             r = 0.93
         lv = [h for h in live if h >= 3]
         if r < 0.16:
-            g = rng.choice([0j, 1 + 0j, -1 + 0j, calsim.rc(rng, 0.5), calsim.rc(rng, 0.5)])
+            # (values that share the real or the imaginary part with a predefined one are ordinary scalars)
+            g = rng.choice([0j, 1 + 0j, -1 + 0j, calsim.rc(rng, 0.5), calsim.rc(rng, 0.5), calsim.rc(rng, 0.5),
+                            complex(rng.choice([1.0, -1.0, 0.0]), rng.choice([0.25, -0.5, 1.0, -1.0])), complex(rng.choice([0.5, -0.3]), 0.0)])
             h = val(S.send('cal make_scalar 0 ' + vlib.c2h(g)))
             if h is None:
                 return fail('make_scalar failed')
